@@ -19,7 +19,7 @@ func TestDescribe(t *testing.T) {
 	if _, err := vt.LoadReplay(p, &s); err != nil {
 		t.Fatal(err)
 	}
-	t.Logf("signal=%s sizer=%s max=%d flush=%v risk=%q", s.Signal, s.Sizer, s.Max, s.Flush, s.risk())
+	t.Logf("signal=%s sizer=%s max=%d flush=%v oversize=%v", s.Signal, s.Sizer, s.Max, s.Flush, s.oversize())
 	for i, b := range s.Payloads {
 		v, _ := sig.Decode(s.Signal, b)
 		t.Logf("payload %d: %d bytes, %d items, standalone=%v\n%s", i, len(b), sig.Count(v), sig.StandaloneSizes(v), pview.String(pview.Of(v)))
